@@ -7,7 +7,7 @@ import (
 
 	"gonum.org/v1/gonum/floats"
 
-	"verif/harness/internal/core"
+	"gonum.org/v1/gonum/verifharness/internal/core"
 )
 
 // the predicate named IsPos in the specification
